@@ -25,7 +25,8 @@ EXTENDS Integers, Sequences, FiniteSets, TLC, Json
 
 CONSTANTS TreeDepth,   \* depth of the initial trees
           MaxSets,     \* copy-and-set operations per behaviour
-          PathLen      \* maximal path length
+          PathLen,     \* maximal path length
+          KeyA, KeyB   \* the two dict key names; one run uses "SELF" (the plain string, not Key.SELF)
 
 Leaf(v)        == [k |-> "leaf",  v |-> v, keys |-> <<>>, kids |-> <<>>]
 Dict(ks, cs)   == [k |-> "dict",  v |-> 0, keys |-> ks,   kids |-> cs]
@@ -122,7 +123,7 @@ MapLeaves(t, root) ==
 
 \* ------------------------------------------------------------------ universes
 LeafVals == {1, 2}
-KeyNames == {"a", "b"}
+KeyNames == {KeyA, KeyB}
 RECURSIVE Trees(_)
 Trees(d) ==
   IF d = 0 THEN {Leaf(v) : v \in LeafVals}
@@ -131,13 +132,13 @@ Trees(d) ==
        S \cup {List(c) : c \in seqs} \cup {Tuple(c) : c \in seqs}
          \cup {Dict(<<>>, <<>>)}
          \cup {Dict(<<n>>, <<x>>) : n \in KeyNames, x \in S}
-         \cup {Dict(<<"a", "b">>, <<x, y>>) : x \in S, y \in S}
+         \cup {Dict(<<KeyA, KeyB>>, <<x, y>>) : x \in S, y \in S}
 Elems == {PKey(s) : s \in KeyNames} \cup {PIdx(i) : i \in 0..2}
 RECURSIVE PathsUpTo(_)
 PathsUpTo(n) == IF n = 0 THEN {<<>>}
                 ELSE LET P == PathsUpTo(n - 1) IN P \cup {Append(p, e) : p \in {q \in P : Len(q) = n - 1}, e \in Elems}
 Paths == (PathsUpTo(PathLen) \ {<<>>}) \cup {<<PSelf>>, <<PSkip>>}
-NewVals == {Leaf(7), Dict(<<"a">>, <<Leaf(8)>>), List(<<>>)}
+NewVals == {Leaf(7), Dict(<<KeyA>>, <<Leaf(8)>>), List(<<>>)}
 
 \* ------------------------------------------------------------------ transitions
 VARIABLES tree0, tree, nsets, hist
